@@ -215,6 +215,11 @@ class ExprMixin:
             return Tup(a.items * int(b.const_value()), a.kind)
         if op == 'mod' and isinstance(a, Const) and isinstance(a.value, str):
             return Const('<fmt>')
+        if op == 'mul':
+            for lst, cnt in ((a, b), (b, a)):
+                ca = cnt.single_atom() if isinstance(cnt, Poly) else None
+                if isinstance(lst, Tup) and lst.kind == 'list' and ca is not None and ca[0] == 'app' and ca[1] == 'len':
+                    return app('repeat_list', lst, cnt)         # [x] * len(seq): a list, not a product of numbers
         return arith(op, a, b)
 
     def e_UnaryOp(self, node, st):
